@@ -8,6 +8,7 @@ fn main() {
     quiet_panics();
     // the shadow allocator is the allocator oracle only in plain native builds
     let want_shadow = args.u64("shadow", 1) == 1 && !cfg!(miri);
+    shadow::set_fill(args.u64("fill", 0) as u8);
     shadow::enable(want_shadow);
     if want_shadow {
         install_crash_reporter();
